@@ -89,6 +89,15 @@ Theorem C07_jac_column_algebra :
 Proof. exact jac_column_algebra. Qed.
 Print Assumptions C07_jac_column_algebra.
 
+(* ---- the com in the point offset must be the com in cdof (subtree_com of the tree root, in mj_jac, mj_jacSparse and
+   mj_jacSparseSimple alike): with any other com' the hinge column is off by xaxis x (com - com') *)
+Theorem C07_jac_com_consistency :
+  forall (xmat : mat3 R) (ja : janchor R) (com com' point : vec3 R),
+    map (fun c : mvec R => jacCol c (sub3 point com')) (jointCdof JHinge xmat ja com) =
+      ((add3 (cross (snd ja) (sub3 point (fst ja))) (cross (snd ja) (sub3 com com')), snd ja) :: nil).
+Proof. exact jac_hinge_com_mismatch. Qed.
+Print Assumptions C07_jac_com_consistency.
+
 (* ---- the Jacobian column is the derivative.  Partial: serial chains.
    j is a hinge (unit axis) or slide joint reached in state st = (xpos, xquat) of mj_kinematics1's joint loop
    (xquat unit); cs is ANY sequence of what can follow on the way down the tree: further joint-loop iterations
